@@ -75,7 +75,7 @@ class SymX:
         self.decide = decide
         self.max_paths = max_paths
         self.follow_except = follow_except
-        lin = Lin(init_env, call_hook, attr_hook, consts, (lambda t, l: decide(t, None)) if decide else None)
+        lin = Lin(init_env, call_hook, attr_hook, consts, (lambda t, l: decide(t, l)) if decide else None)
         self.start = State(lin)
         self.truncated = False
 
